@@ -36,7 +36,8 @@ def one(name):
     r = subprocess.run(["/verif/selftest/try_patch.sh", f"{d}/patch.diff", prop, "quick"], capture_output=True, text=True)
     log = (r.stdout + r.stderr).splitlines()
     rc = [l for l in log if l.startswith("try_patch:")]
-    code = int(re.search(r"exit=(\d+)", rc[-1]).group(1)) if rc else None
+    m_ = re.search(r"exit=(\d+)", rc[-1]) if rc else None
+    code = int(m_.group(1)) if m_ else None
     cr = meta.setdefault("check_result", {})
     cr.update({"exit_code": code, "detected": code == 1, "violations_reported": [l for l in log if " x " in l][:8], "checked_at_repo_head": head})
     json.dump(meta, open(f"{d}/meta.json", "w"), indent=1)
